@@ -395,20 +395,38 @@ def fitsCheckSync (cap : Nat) (ttl tti : Option Nat) (w : Nat → Nat → Nat) (
      before.entries.all (fun e => !(entryLiveAt ttl tti after.now after.va e) ||
        after.entries.any (fun e' => e'.key == e.key)))
 
+/-- The inserts of a segment that ends with `sync, snap`: `some (k, last value, heaviest
+value's weight, after)` if the segment consists of inserts of one key only (snapshots and
+popularity readings in between are allowed), `none` otherwise. -/
+def collectInserts (w : Nat → Nat → Nat) : Trace → Option (Nat × Nat × Nat) → Option (Nat × Nat × Nat × Snap)
+  | (.sync, .ok) :: (.snap, .snap after) :: _, some (k, v, mw) => some (k, v, mw, after)
+  | (.ins k v, .ok) :: rest, none => collectInserts w rest (some (k, v, w k v))
+  | (.ins k v, .ok) :: rest, some (k0, _, mw) =>
+    if k == k0 then collectInserts w rest (some (k, v, max mw (w k v))) else none
+  | (.snap, .snap _) :: rest, acc => collectInserts w rest acc
+  | (.freq _, .freq _) :: rest, acc => collectInserts w rest acc
+  | _, _ => none
+
+/-- Part B on the concurrent cache: between two snapshots taken right after `sync()` with
+empty queues, one fresh key is inserted (possibly several times, the later inserts being
+updates of a value whose first insert is still queued). If its latest value fits in the
+room the residents leave, it is retained; if every inserted value fits, nothing unexpired is
+evicted either. -/
 def fitsC03Sync (cap : Nat) (ttl tti : Option Nat) (w : Nat → Nat → Nat) : Trace → Bool
-  | (.sync, .ok) :: (.snap, .snap before) :: (.ins k v, .ok) :: (.sync, .ok) :: (.snap, .snap after) :: rest =>
-    fitsCheckSync cap ttl tti w before k v after &&
-    fitsC03Sync cap ttl tti w ((.sync, .ok) :: (.snap, .snap after) :: rest)
-  | (.sync, .ok) :: (.snap, .snap before) :: (.ins k v, .ok) :: (.snap, .snap mid) :: (.sync, .ok) ::
-      (.snap, .snap after) :: rest =>
-    fitsCheckSync cap ttl tti w before k v after &&
-    fitsC03Sync cap ttl tti w ((.snap, .snap mid) :: (.sync, .ok) :: (.snap, .snap after) :: rest)
-  | (.sync, .ok) :: (.snap, .snap before) :: (.freq _, .freq _) :: (.ins k v, .ok) :: (.snap, .snap mid) ::
-      (.sync, .ok) :: (.snap, .snap after) :: rest =>
-    fitsCheckSync cap ttl tti w before k v after &&
-    fitsC03Sync cap ttl tti w ((.snap, .snap mid) :: (.sync, .ok) :: (.snap, .snap after) :: rest)
-  | _ :: rest => fitsC03Sync cap ttl tti w rest
   | [] => true
+  | (.sync, .ok) :: (.snap, .snap before) :: rest =>
+    (match collectInserts w rest none with
+     | some (k, v, mw, after) =>
+       let fresh := !(before.entries.any (fun e => e.key == k))
+       let quiet := before.rq == 0 && before.wq == 0 && after.rq == 0 && after.wq == 0
+       let lives := !(ttl == some 0) && !(tti == some 0)
+       !(fresh && quiet && lives && decide (snapWeight before + w k v ≤ cap)) ||
+         (after.entries.any (fun e => e.key == k && e.val == v) &&
+          (!(decide (snapWeight before + mw ≤ cap)) ||
+            before.entries.all (fun e => !(entryLiveAt ttl tti after.now after.va e) ||
+              after.entries.any (fun e' => e'.key == e.key))))
+     | none => true) && fitsC03Sync cap ttl tti w ((.snap, .snap before) :: rest)
+  | _ :: rest => fitsC03Sync cap ttl tti w rest
 
 def oracleC03 (kind : Kind) (cap ttl tti : Option Nat) (w : Nat → Nat → Nat) (t : Trace) : Bool :=
   (match cap with
